@@ -210,3 +210,60 @@ def Good (s : St) : Prop :=
   (∀ m c, (m, c) ∈ s.ran → ∃ a, a < s.nobj ∧ s.owner a = m ∧ s.cb a = c)
 
 end Cell2v.TimerObj
+
+/-! ### a manager that can be stopped (`timer.Mgr.Stop`, called first by `StandardRunService.Stop`): `running` is cleared
+and never set again; the `time.AfterFunc` closure of an object whose manager is stopped returns without touching the
+queue (`if !m.running { return }`) — it neither enqueues nor runs the callback.  Arming on a stopped manager is still
+possible (the object is allocated, its expiry is then dropped); what already waits in the queue may still be taken by
+the loop until it sees the close signal. -/
+namespace Cell2v.TimerStop
+open Cell2v.TimerObj
+
+structure St where
+  base : TimerObj.St := {}
+  stopped : Nat → Bool := fun _ => false
+
+inductive Op where
+  | base (o : TimerObj.Op)
+  | stopMgr (m : Nat)
+
+def step (s : St) : Op → St
+  | .stopMgr m => { s with stopped := fun k => if k = m then true else s.stopped k }
+  | .base (.expire a) =>
+    -- the AfterFunc closure: cancelled → return; manager stopped → return; else `m.queue <- t`
+    if s.stopped (s.base.owner a) then s else { s with base := TimerObj.step s.base (.expire a) }
+  | .base o => { s with base := TimerObj.step s.base o }
+
+def run (s : St) (ops : List Op) : St := ops.foldl step s
+
+/-- callbacks run by the loop of manager `m` so far -/
+def ranOn (s : St) (m : Nat) : Nat := (s.base.ran.filter (·.1 == m)).length
+
+end Cell2v.TimerStop
+
+/-! ### completion of a service's requests (`Service.Request/RequestEx` → `handleResponse` / the expiry scan of
+`checkExpired`, actorex/service/service.go) as a client of the loop.  The completion callback of a request is the
+requester's code.  Channel 1 = the requester's dispatcher channel (mailbox runs), channel 2 = its timer queue.
+Whatever becomes of the request — answered by the peer's goroutine or a helper goroutine, answered by the requester
+itself (self-request: the handler piece posts the response to the own mailbox), turned into a dead letter on an
+intermediary's goroutine, or never answered — the callback is reached only through one of the two queues: the
+`ServiceResponse` message, or the 1 s expiry-scan timer that finds the request older than 30 s.  A dead letter touches
+nothing of the requester. -/
+namespace Cell2v.ReqDone
+open Cell2v.Loop
+
+inductive Fate where
+  | answered (p : Nat)        -- producer `p` (peer service / helper goroutine) sends the response to the requester's pid
+  | selfAnswered (p : Nat)    -- self-request: `p` delivered the request message, the requester's own handler piece posts the response
+  | deadLetter (p t : Nat)    -- the request reaches the dead-letter process on thread `p`; timer goroutine `t` later enqueues the expiry scan
+  | silent (t : Nat)          -- nobody answers; timer goroutine `t` enqueues the expiry scan
+
+/-- the loop schedule the completions induce; item `j + 1` = the callback of request `j`, item 0 = a handler piece -/
+def sched : Nat → List Fate → List Lbl
+  | _, [] => []
+  | j, .answered p :: fs => [.enq p 1 (j + 1), .pick 1, .finish] ++ sched (j + 1) fs
+  | j, .selfAnswered p :: fs => [.enq p 1 0, .pick 1, .henq 1 (j + 1), .finish, .pick 1, .finish] ++ sched (j + 1) fs
+  | j, .deadLetter p t :: fs => [.pstep p, .enq t 2 (j + 1), .pick 2, .finish] ++ sched (j + 1) fs
+  | j, .silent t :: fs => [.enq t 2 (j + 1), .pick 2, .finish] ++ sched (j + 1) fs
+
+end Cell2v.ReqDone
